@@ -87,7 +87,7 @@ func Begin(prop, tier, level string) *Run {
 		violations: map[string]*Violation{}, exhaustive: true}
 	budget := 20 * time.Minute
 	if tier == "thorough" {
-		budget = 3 * time.Hour
+		budget = 45 * time.Minute
 	}
 	if s := os.Getenv("VERIF_BUDGET_S"); s != "" {
 		if v, err := strconv.Atoi(s); err == nil {
@@ -158,7 +158,15 @@ func (r *Run) Set(key string, v interface{}) {
 func (r *Run) Cap(what string) {
 	r.mu.Lock()
 	r.exhaustive = false
-	r.caps = append(r.caps, what)
+	dup := false
+	for _, c := range r.caps {
+		if c == what {
+			dup = true
+		}
+	}
+	if !dup {
+		r.caps = append(r.caps, what)
+	}
 	r.mu.Unlock()
 }
 
